@@ -17,6 +17,28 @@ DETECT = {
     "C13-B": ("C13", ["C13"], ""),
     "C14-A": ("C14", ["C14", "C08"], "second load of the same dict object"),
     "C14-B": ("C14", ["C14"], "reported through the broken correspondence (state content differs from the model after > 1000 draws); no-failing-input-found unless the two-stage resume is sampled"),
+    "C03-A": ("C03", ["C03"], "in_order=False multiset leg over two epochs with persistent workers"),
+    "C03-B": ("C03", ["C03", "C09"], "C09 reports it through the broken K-T correspondence"),
+    "C04-A": ("C04", ["C04", "C12"], "at first only a K-T divergence; pm_trace's lifecycle oracle now compares every post-reset epoch with the reference and attributes source calls to reader generations"),
+    "C04-B": ("C04", ["C04"], "None-valued items in the generated pipelines"),
+    "C05-A": ("C05", ["C05", "C07"], "delayed-flush schedule policy / delayed serialisation in the K-D leg"),
+    "C06-A": ("C06", ["C06", "C02"], "same idea as C02-B, found independently"),
+    "C06-B": ("C06", ["C02", "C06"], "chain oracle: second checkpoint after a resume"),
+    "C08-A": ("C08", ["C08", "C14"], ""),
+    "C08-B": ("C08", ["C08", "C13"], "escaped C08 at first (states were only loaded into fresh objects); a load; iter(); load; iterate leg on the SAME object was added"),
+    "C09-A": ("C09", ["C09"], "kill during the start-up handshake"),
+    "C09-B": ("C09", ["C09"], "via the broken K-T correspondence of the MP model (no-failing-input-found in the quick tier)"),
+    "C10-A": ("C10", ["C10"], "needed datasets whose state_dict() raises (added)"),
+    "C10-B": ("C10", ["C10"], "needed a start-up failure after load_state_dict (added)"),
+    "C11-A": ("C11", ["C11"], ""),
+    "C11-B": ("C11", ["C11"], "needed sources whose state_dict() raises where a snapshot is due (added to the PF / PM oracles)"),
+    "C12-A": ("C12", ["C12", "C04"], "same change as C04-A; was masked by the known-finding classifier until that was narrowed to slow sources (delay > join timeout)"),
+    "C15-A": ("C15", ["C15"], ""),
+    "C15-B": ("C15", ["C15"], ""),
+    "C16-A": ("C16", ["C16"], ""),
+    "C16-B": ("C16", ["C16"], ""),
+    "C17-A": ("C17", ["C17"], "at first only a K-T divergence; pm_trace now has error -> reset/del/exhaust histories with method=process and reports leaked worker processes"),
+    "C17-B": ("C17", ["C17"], ""),
 }
 
 
